@@ -8,6 +8,7 @@ Filter::Exact is whole-string equality; EntryTree::retain on a small tree builds
 paths parent::child[::arg], decides per case (each runtime argument separately) and keeps
 group nodes exactly when a selected case lies below them.
 Iterator adapters, raw-pointer code and format! put these functions outside Verus."""
+from lib import rsx
 from lib.unit import *
 
 FILTER = "src/config/filter.rs"
@@ -148,21 +149,29 @@ mod verif_c13_tree {
 
     /// tree  m { a, b[1, 22] }: selection is decided per case (each runtime argument separately,
     /// one filter question per case, none for inner nodes) and parents are pruned exactly when
-    /// nothing selected lies below. (format! is stubbed out here, so the questions are identified
-    /// by their order; the path TEXT is checked by retain_small_tree_paths in the thorough tier.)
-    #[kani::proof]
-    #[kani::solver(kissat)]
-    #[kani::unwind(4)]
-    #[kani::stub(alloc::fmt::format, no_format)]
-    fn retain_small_tree_structure() {
-        let t: [bool; 3] = kani::any();
+    /// nothing selected lies below. One harness per verdict combination (8, enumerated): with
+    /// symbolic verdicts CBMC does not finish on Vec<EntryTree>::retain_mut. format! is stubbed out
+    /// here, so the questions are identified by their order; the path TEXT is checked by
+    /// retain_small_tree_paths in the thorough tier.
+    fn structure_case(t: [bool; 3]) {
         let mut tree = tree();
         let mut asked = 0usize;
         EntryTree::retain(&mut tree, |_p| { let k = asked; asked += 1; if k < 3 { t[k] } else { false } });
         assert!(asked == 3);
         check_structure(&tree, t);
-        kani::cover!(t[0] && !t[1] && t[2]);
     }
+    macro_rules! structure_harness { ($name:ident, $a:expr, $b:expr, $c:expr) => {
+        #[kani::proof] #[kani::unwind(4)] #[kani::stub(alloc::fmt::format, no_format)]
+        fn $name() { structure_case([$a, $b, $c]); }
+    } }
+    structure_harness!(retain_structure_000, false, false, false);
+    structure_harness!(retain_structure_001, false, false, true);
+    structure_harness!(retain_structure_010, false, true, false);
+    structure_harness!(retain_structure_011, false, true, true);
+    structure_harness!(retain_structure_100, true, false, false);
+    structure_harness!(retain_structure_101, true, false, true);
+    structure_harness!(retain_structure_110, true, true, false);
+    structure_harness!(retain_structure_111, true, true, true);
 
     /// the same tree with the real format!: the questions are exactly the paths m::a, m::b::1, m::b::22
     #[kani::proof]
@@ -185,20 +194,195 @@ mod verif_c13_tree {
 """
 
 
+FILTER_SPEC = r"""
+// opaque stand-ins: a filter, and whether it matches a path (regex search or whole-string equality)
+#[verifier::external_body] pub struct Filter { _p: core::marker::PhantomData<()> }
+pub uninterp spec fn matches(f: Filter, path: Seq<char>) -> bool;
+
+// the split vector as FilterSet sees it: all(), split_index() (the unsafe insert that maintains
+// "skip filters first" is checked by the Kani harness verif_c13_split::splitvec_insert)
+pub struct SplitVec { pub items: Vec<Filter>, pub split_index: usize }
+impl SplitVec {
+    pub open spec fn wf(&self) -> bool { self.split_index <= self.items@.len() }
+    #[verifier::external_body]
+    pub fn all(&self) -> (r: &[Filter]) ensures r@ == self.items@ { unimplemented!() }
+    #[verifier::external_body]
+    pub fn split_index(&self) -> (r: usize) ensures r == self.split_index { unimplemented!() }
+}
+pub struct FilterSet { pub filters: SplitVec }
+
+// ASSUMED contract of the replaced iterator expression `filters.iter().position(|f| f.is_match(entry_path))`:
+// the least index whose filter matches, if any
+#[verifier::external_body]
+pub fn first_match(filters: &[Filter], entry_path: &str) -> (r: Option<usize>)
+    ensures
+        match r {
+            Some(i) => i < filters@.len() && matches(filters@[i as int], entry_path@) && forall|j: int| 0 <= j < i ==> !matches(#[trigger] filters@[j], entry_path@),
+            None => forall|j: int| 0 <= j < filters@.len() ==> !matches(#[trigger] filters@[j], entry_path@),
+        },
+{ unimplemented!() }
+
+// THE RULE, over the skip filters items[..split] and the positive filters items[split..]
+pub open spec fn selected(fs: FilterSet, path: Seq<char>) -> bool {
+    let items = fs.filters.items@; let split = fs.filters.split_index as int;
+    let skip_hit = exists|j: int| 0 <= j < split && matches(#[trigger] items[j], path);
+    let any_pos = split < items.len();
+    let pos_hit = exists|j: int| split <= j < items.len() && matches(#[trigger] items[j], path);
+    !skip_hit && (!any_pos || pos_hit)
+}
+"""
+
+PIN_POSITION = "if let Some(index) = filters.iter().position(|f| f.is_match(entry_path))"
+
+
+def filter_file(S: Sources):
+    """FilterSet::is_match for EVERY filter set (unbounded): extracted text with the iterator expression pinned and replaced."""
+    from units.loop_common import pin
+    f = S(FILTER)
+    fi = f.find_fn("is_match", impl=r"impl FilterSet\b")
+    sec = code_fn(f, fi, "FilterSet::is_match", ret="r", pair=["verif_c13_filter::is_match_rule"],
+                  subst=[(pin(PIN_POSITION), "if let Some(index) = first_match(filters, entry_path)", 1)],
+                  clauses="""
+        requires self.filters.wf(),
+        ensures r == selected(*self, entry_path@),
+    """)
+    secs = [ghost("C13 filter spec and stand-ins", FILTER_SPEC, kind="trusted")] + wrap_impl("impl FilterSet", [sec])
+    import copy
+    csecs = copy.deepcopy(secs) + [ghost("canaries", """
+pub fn canary_is_match(fs: &FilterSet, p: &str) requires fs.filters.wf() { let r = fs.is_match(p); assert(false); }
+""", kind="lemma")]
+    return [VerusFile("c13_is_match", secs), VerusFile("c13_is_match_canary", csecs, expect_fail=True)]
+
+
+RETAIN_SPEC = r"""
+// opaque stand-ins
+#[verifier::external_body] pub struct GroupEntry { _p: core::marker::PhantomData<()> }
+#[verifier::external_body] #[derive(Clone, Copy)] pub struct AnyBenchEntry<'a> { _p: core::marker::PhantomData<&'a ()> }
+
+// the filter closure as a predicate on the path text
+pub uninterp spec fn verdict(path: Seq<char>) -> bool;
+#[verifier::external_body] pub struct Filt { _p: core::marker::PhantomData<()> }
+impl Filt {
+    #[verifier::external_body]
+    pub fn ask(&mut self, p: &str) -> (r: bool) ensures r == verdict(p@) { unimplemented!() }
+}
+
+// display name of a node (benchmark's / group's display name, or the module name), uninterpreted
+pub uninterp spec fn name_of(c: EntryTree) -> Seq<char>;
+impl<'a> EntryTree<'a> {
+    #[verifier::external_body]
+    pub fn display_name(&self) -> (r: &'a str) ensures r@ == name_of(*self) { unimplemented!() }
+}
+pub open spec fn sep() -> Seq<char> { seq![':', ':'] }
+// THE PATH of a node below `parent`: parent::name (just name at the top level)
+pub open spec fn path_of(parent: Seq<char>, name: Seq<char>) -> Seq<char> { if parent.len() == 0 { name } else { parent + sep() + name } }
+
+// ASSUMED contract of the replaced `format!("{parent_path}::{}", subtree.display_name())`
+#[verifier::external_body]
+pub fn join_path(parent_path: &str, name: &str) -> (r: String) ensures r@ == parent_path@ + sep() + name@ { unimplemented!() }
+#[verifier::external_body]
+pub fn str_is_empty(s: &str) -> (r: bool) ensures r == (s@.len() == 0) { unimplemented!() }
+
+// what the recursive call leaves of a group's children (the function's own contract, used modularly)
+pub uninterp spec fn retained(children: Seq<EntryTree>, path: Seq<char>) -> Seq<EntryTree>;
+#[verifier::external_body]
+pub fn retain_children(tree: &mut Vec<EntryTree>, parent_path: &str, filter: &mut Filt)
+    ensures final(tree)@ == retained(old(tree)@, parent_path@),
+{ unimplemented!() }
+
+// ASSUMED contract of the replaced `args.retain(|arg| filter(&format!("{subtree_path}::{arg}")))`:
+// each runtime argument is decided separately, on the path  node_path::arg
+pub open spec fn arg_kept(path: Seq<char>, arg: &'static &'static str) -> bool { verdict(path + sep() + (**arg)@) }
+#[verifier::external_body]
+pub fn retain_args(args: &mut Vec<&'static &'static str>, subtree_path: &str, filter: &mut Filt)
+    ensures final(args)@ == old(args)@.filter(|a: &'static &'static str| arg_kept(subtree_path@, a)),
+{ unimplemented!() }
+"""
+
+PIN_FORMAT = 'format!("{parent_path}::{}", subtree.display_name())'
+PIN_ARGS_RETAIN = """args.retain(|arg| {
+                            filter(&format!("{subtree_path}::{arg}"))
+                        });"""
+PIN_RECURSE_RETAIN = "retain(children, subtree_path, filter);"
+
+
+def retain_file(S: Sources):
+    """The per-node decision of EntryTree::retain - the body of the closure given to retain_mut - for EVERY node (unbounded):
+    outlined verbatim as a function of (subtree, parent_path, filter); format!, the argument-level retain and the recursive
+    call are pinned and replaced by stand-ins (the recursive call through an uninterpreted 'what it leaves' function)."""
+    from units.loop_common import pin
+    import re
+    tr = S(TREE)
+    f_outer = tr.find_fn("retain", impl=r"impl<'a> EntryTree<'a>")
+    body, line = rsx.region(f_outer, r"let subtree_path : String ;", r"! args \. is_empty \( \) \} \}", include_end=True)
+    subs = [
+        (pin(PIN_FORMAT), "join_path(parent_path, subtree.display_name())", 1),
+        (pin(PIN_ARGS_RETAIN), "retain_args(args, subtree_path, filter);", 1),
+        (pin(PIN_RECURSE_RETAIN), "retain_children(children, subtree_path, filter);", 1),
+        (r"parent_path\s*\.\s*is_empty\(\)", "str_is_empty(parent_path)", 1),
+        (r"&\s*subtree_path\s*\}", "subtree_path.as_str() }", 1),
+        (r"\bfilter\(", "filter.ask(", "all"),
+    ]
+    dropped = []
+    for pat, rep, cnt in subs:
+        if cnt == "all":
+            body, k = re.subn(pat, rep, body)
+        else:
+            body, k = re.subn(pat, rep, body)
+            if k != cnt:
+                raise rsx.LostAnchor(f"{TREE}: retain closure body: subst {pat!r} matched {k} != {cnt}")
+        dropped.append(f"subst {pat!r} -> {rep!r}")
+    secs = []
+    secs.append(code_item(tr, tr.find_item("enum", "EntryTree")))
+    secs.append(ghost("C13 retain spec and stand-ins", RETAIN_SPEC, kind="trusted"))
+    core = Section(name="EntryTree::retain (closure body given to retain_mut, outlined)", kind="code", origin=f"{TREE}:{line}",
+                   pair=["verif_c13_tree::retain_small_tree_paths"],
+                   text="pub fn retain_one(subtree: &mut EntryTree, parent_path: &str, filter: &mut Filt) -> (keep: bool)\n" + RETAIN_CLAUSES + "{\n" + body + "\n}")
+    core.dropped = dropped + ["closure `|subtree| { .. }` given to Vec::retain_mut outlined as a function of its parameter and its two captured variables"]
+    secs.append(core)
+    import copy
+    csecs = copy.deepcopy(secs) + [ghost("canaries", """
+pub fn canary_retain_one(t: &mut EntryTree, p: &str, f: &mut Filt) { let k = retain_one(t, p, f); assert(false); }
+""", kind="lemma")]
+    return [VerusFile("c13_retain", secs), VerusFile("c13_retain_canary", csecs, expect_fail=True)]
+
+
+RETAIN_CLAUSES = r"""
+    ensures
+        // a benchmark without runtime arguments: kept iff its own path passes; untouched
+        (*old(subtree)) matches EntryTree::Leaf { args: None, .. } ==>
+            keep == verdict(path_of(parent_path@, name_of(*old(subtree)))) && *final(subtree) == *old(subtree),
+        // a benchmark with runtime arguments: each argument decided separately on path::arg; kept iff one remains
+        (*old(subtree)) matches EntryTree::Leaf { args: Some(a0), entry: e0 } ==>
+            (*final(subtree)) matches EntryTree::Leaf { args: Some(a1), entry: e1 } && e1 == e0
+            && a1@ == a0@.filter(|a: &'static &'static str| arg_kept(path_of(parent_path@, name_of(*old(subtree))), a))
+            && keep == (a1@.len() > 0),
+        // a group / module node: no question is asked for it; it is kept iff something below it is
+        (*old(subtree)) matches EntryTree::Parent { children: c0, raw_name: r0, group: g0 } ==>
+            (*final(subtree)) matches EntryTree::Parent { children: c1, raw_name: r1, group: g1 } && r1 == r0 && g1 == g0
+            && c1@ == retained(c0@, path_of(parent_path@, name_of(*old(subtree))))
+            && keep == (c1@.len() > 0),
+"""
+
+
 def build(S: Sources) -> Unit:
     for f in (FILTER, SPLIT, TREE):
         S(f)
     hs = [
         KaniHarness("verif_c13_split::splitvec_insert", "bounded", bound="up to 5 inserts, every before/after pattern", covers="SplitVec::insert / split_index / all"),
         KaniHarness("verif_c13_filter::is_match_rule", "bounded", bound="up to 3 filters (any skip/positive pattern and insertion order), symbolic per-filter verdicts",
-                    covers="FilterSet::include / exclude / is_match"),
+                    covers="FilterSet::include / exclude / is_match", tier="thorough"),
         KaniHarness("verif_c13_filter::exact_is_whole_string_equality", "bounded", bound="candidate strings of up to 2 ASCII bytes against the filter \"ab\"", covers="Filter::is_match (Exact)"),
-        KaniHarness("verif_c13_tree::retain_small_tree_structure", "bounded", bound="one tree: group m { a, b[1, 22] }, all 8 verdict combinations; format! stubbed", covers="EntryTree::retain (per-case decision, pruning of empty parents)"),
+    ] + [KaniHarness(f"verif_c13_tree::retain_structure_{c}", "bounded", bound=f"one tree: group m {{ a, b[1, 22] }}, verdicts {c} (all 8 combinations are enumerated, one harness each); format! stubbed",
+                     covers="EntryTree::retain (per-case decision, pruning of empty parents)", tier="thorough") for c in ("000", "001", "010", "011", "100", "101", "110", "111")] + [
         KaniHarness("verif_c13_tree::retain_small_tree_paths", "bounded", bound="the same tree with the real format!", covers="EntryTree::retain (path text parent::child[::arg])", tier="thorough"),
     ]
+    errs = []
+    ff = guarded(lambda: filter_file(S), errs, []) + guarded(lambda: retain_file(S), errs, [])
     return Unit(
         property_id="C13",
-        verus=[],
+        build_errors=errs,
+        verus=ff,
         kani=KaniSpec(flags=["--no-memory-safety-checks", "--no-assertion-reach-checks"], injections={SPLIT: KANI_SPLIT, FILTER: KANI_FILTER, TREE: KANI_TREE}, harnesses=hs,
                       timeout_s=1500, stubs_note=["alloc::fmt::format -> empty string in verif_c13_tree::retain_small_tree_structure (path text is then not checked there)", "Filter::is_match -> per-filter symbolic verdict (in verif_c13_filter::is_match_rule only; the Exact arm is checked separately, the Regex arm delegates to the regex-lite dependency)"]),
         undecided_clauses=[
